@@ -1,4 +1,5 @@
 """C10 — the sweeper removes exactly the expired keys and reclaims their weight (safety clauses).  (DESIGN §4 C10)"""
+from sym import ipaths
 from core import (strip_site, same_value, root_calls, fmt, is_call_to, enum_paths, path_atoms, path_calls, bool_branch,
                   closure_captures, mentions, subexprs, dashmap_call, variant_edges)
 from tickermodel import TickerModel
@@ -112,11 +113,18 @@ def run(ctx):
         if g.rec.get("ret") != "std::time::SystemTime":
             continue
         # the function returns the expiry of the value it inserted
-        ins = [(bb, t) for bb, t in g.calls() if dashmap_call(t) == ("insert", "S")][0]
-        val = g.op_origin(ins[1]["args"][2])
-        r = g.origin_local(0)
-        ok = mentions(r, lambda s: s[0] == "field" and s[2] == "expire_after" and strip_site(s[1]) == strip_site(val))
-        ctx.check(ok, "R10.3", "%s|returns-stored-expiry" % fname, "the TTL insert returns the expiry of the very value it stored", g.where(), fmt(r))
+        ok = True
+        n_ins = 0
+        r = None
+        own_ = (g.rec.get("self_ty") or "").split("<")[0]
+        for p_ in ipaths(F, g, stop=lambda n_: not (n_ in F.fns and (F.fns[n_].rec.get("self_ty") or "").split("<")[0] == own_), depth=2):
+            ie = [e for e in p_.events if dashmap_call(e.t) == ("insert", "S")]
+            for e in ie:
+                n_ins += 1
+                val = e.args[2]
+                r = p_.ret
+                ok = ok and mentions(r, lambda s_: s_[0] == "field" and s_[2] == "expire_after" and strip_site(s_[1]) == strip_site(val))
+        ctx.check(ok and n_ins >= 1, "R10.3", "%s|returns-stored-expiry" % fname, "the TTL insert returns the expiry of the very value it stored", g.where(), fmt(r) if r else "")
         for h, bb, t in [(h, bb, t) for n, h in F.fns.items() for bb, t in h.calls() if t.get("rpath") == fname]:
             n_reg += 1
             ires = h.origin_call(bb, t)
